@@ -13,6 +13,7 @@ from linear_operator.operators._linear_operator import IndexType, LinearOperator
 from linear_operator.operators.block_diag_linear_operator import BlockDiagLinearOperator
 from linear_operator.operators.dense_linear_operator import DenseLinearOperator
 from linear_operator.operators.triangular_linear_operator import TriangularLinearOperator
+from linear_operator.utils.broadcasting import _matmul_broadcast_shape
 from linear_operator.utils.memoize import cached
 
 
@@ -165,6 +166,12 @@ class DiagLinearOperator(TriangularLinearOperator):
             rhs_batch_shape = torch.Size()
         else:
             rhs_batch_shape = inv_quad_rhs.shape[1 + self.batch_dim :]
+            if inv_quad_rhs.shape[self.batch_dim] != self.shape[-1]:
+                raise RuntimeError(
+                    "LinearOperator (size={}) cannot be multiplied with right-hand-side Tensor (size={}).".format(
+                        self.shape, inv_quad_rhs.shape
+                    )
+                )
 
         if inv_quad_rhs is None:
             inv_quad_term = torch.empty(0, dtype=self.dtype, device=self.device)
@@ -195,6 +202,7 @@ class DiagLinearOperator(TriangularLinearOperator):
         self: Float[LinearOperator, "*batch M N"],
         other: Union[Float[Tensor, "*batch2 N P"], Float[Tensor, "*batch2 N"], Float[LinearOperator, "*batch2 N P"]],
     ) -> Union[Float[Tensor, "... M P"], Float[Tensor, "... M"], Float[LinearOperator, "... M P"]]:
+        _matmul_broadcast_shape(self.shape, other.shape)
         if isinstance(other, Tensor):
             diag = self._diag if other.ndim == 1 else self._diag.unsqueeze(-1)
             return diag * other
@@ -407,6 +415,7 @@ class ConstantDiagLinearOperator(DiagLinearOperator):
     def solve_triangular(
         self, rhs: torch.Tensor, upper: bool, left: bool = True, unitriangular: bool = False
     ) -> torch.Tensor:
+        _matmul_broadcast_shape(self.shape, rhs.shape)
         return rhs / self.diag_values
 
     def sqrt(self: Float[LinearOperator, "*batch M N"]) -> Float[LinearOperator, "*batch M N"]:
